@@ -695,7 +695,7 @@ def gen_mtl(rng: random.Random, overlap=False, nested=None, bound=2 ** 20, alias
         for ti in range(nt):
             params = []
             terms = []
-            if zero_last and ti == nt - 1:
+            if (zero_last and ti == nt - 1) or zero_last == "all":
                 # an INACTIVE last task (dead unit, masked loss): loss = sum(f * q) with q = 0, so its
                 # gradient w.r.t. every feature -- the last row of the Jacobian -- is exactly zero
                 for f in feats:
